@@ -27,6 +27,13 @@ pub struct K3 {
     pub f2: List<u8>,
 }
 
+/// a body that can be EMPTY: the account then holds exactly its discriminant
+#[unsized_type(program_account, skip_idl)]
+pub struct K0 {
+    #[unsized_start]
+    pub rest: RemainingBytes,
+}
+
 trait Fields: ProgramAccount + UnsizedType {
     const K: usize;
     fn owned_of(fields: Vec<Vec<u8>>) -> Vec<u8>;
@@ -80,6 +87,38 @@ macro_rules! impl_fields {
             }
         }
     };
+}
+impl Fields for K0 {
+    const K: usize = 1;
+    fn owned_of(fields: Vec<Vec<u8>>) -> Vec<u8> {
+        let mut v = bytemuck::bytes_of(&<K0 as ProgramAccount>::DISCRIMINANT).to_vec();
+        v.extend_from_slice(&fields[0]);
+        v
+    }
+    fn push(w: &mut ExclusiveWrapperTop<'_, star_frame::account_set::account::discriminant::AccountDiscriminant<Self>, AccountInfo>, _i: usize, n: usize, b: u8) -> Result<()> {
+        let mut r = w.rest();
+        let old = r.len();
+        r.set_len(old + n)?;
+        for x in &mut r[old..] {
+            *x = b;
+        }
+        Ok(())
+    }
+    fn remove(w: &mut ExclusiveWrapperTop<'_, star_frame::account_set::account::discriminant::AccountDiscriminant<Self>, AccountInfo>, _i: usize, s: usize, e: usize) -> Result<()> {
+        let mut r = w.rest();
+        let len = r.len();
+        if s > e {
+            return Err(star_frame::errors::Error::from(star_frame::errors::ErrorCode::InvalidRange));
+        }
+        if e > len {
+            return Err(star_frame::errors::Error::from(star_frame::errors::ErrorCode::IndexOutOfBounds));
+        }
+        r.copy_within(e.., s);
+        r.set_len(len - (e - s))
+    }
+    fn read(p: &Self::Ptr) -> Vec<i128> {
+        vec![p.rest.len() as i128, checksum(&p.rest)]
+    }
 }
 impl_fields!(K1, 1, 0 => f0);
 impl_fields!(K2, 2, 0 => f0, 1 => f1);
@@ -224,6 +263,13 @@ fn main() {
         let k = ints[1] as usize;
         let lens = &ints[2..2 + k];
         let ops = &ints[2 + k..];
+        if k == 0 {
+            // one prefix-less field: the case carries its initial length
+            let lens = &ints[2..3];
+            let ops = &ints[3..];
+            o.line(id, &run_case::<K0>(w, lens, ops));
+            continue;
+        }
         let obs = match k {
             1 => run_case::<K1>(w, lens, ops),
             2 => run_case::<K2>(w, lens, ops),
